@@ -456,6 +456,12 @@ func derivesFrom(v ssa.Value, pred func(ssa.Value) bool, throughCalls bool) bool
 			}
 		case *ssa.Slice:
 			return rec(x.X, d+1)
+		case *ssa.Alloc:
+			for _, st := range storesTo(x) {
+				if rec(st.Val, d+1) {
+					return true
+				}
+			}
 		case *ssa.FieldAddr:
 			return rec(x.X, d+1)
 		case *ssa.Field:
